@@ -539,4 +539,57 @@ theorem nested_table_subsumed :
       routesToArchive S2T.Gen.Router.tables (demoEnv (fun _ => none)) ('x' :: e)) = true := by
   decide +kernel
 
+/-! ## The translated `_safe_join` itself (end to end)
+
+`Props/C09_Src.lean` proves the `_safe_join` re-translated from `sevenzip_extractor.py` on every run
+equal to the model's `safeJoin`; composed with `C09_safe_join`, confinement is a statement about the
+function **as the source has it now**, for every host (`cwd`), every normalised absolute base and every
+member name: what it returns lies under the base, component by component, and whatever it raises is
+`Bad7zFile`. -/
+section src
+open S2T.Py S2T.Gen.PySevenZip S2T.C09.Src
+
+
+/-- **C09 at the source level (`_safe_join` confines).** -/
+theorem C09_src_safe_join (env : Py.Env) (base rel : Py.Str) (habs : isAbs base = true)
+    (hnorm : normpath base = base) :
+    (∀ p, _safe_join env base rel = .ok p →
+        isAbs p = true ∧ ∃ s, comps p = comps base ++ s ∧
+          ∀ c ∈ s, c ≠ [] ∧ c ≠ dot ∧ c ≠ dotdot ∧ '/' ∉ c) ∧
+    (∀ e, _safe_join env base rel = .error e → e.cls = "Bad7zFile") := by
+  rw [safe_join_eq]
+  constructor
+  · intro p hp
+    cases hj : safeJoin env.cwd base rel with
+    | ok q =>
+      rw [hj] at hp
+      simp only [Except.mapError, Except.ok.injEq] at hp
+      subst hp
+      exact C09_safe_join env.cwd base rel q habs hnorm hj
+    | error x => rw [hj] at hp; simp [Except.mapError] at hp
+  · intro e he
+    cases hj : safeJoin env.cwd base rel with
+    | ok q => rw [hj] at he; simp [Except.mapError] at he
+    | error x =>
+      rw [hj] at he
+      simp only [Except.mapError, Except.error.injEq] at he
+      subst he
+      rfl
+
+/-! ### Non-vacuity -/
+example : isAbs "/tmp/x".toList = true ∧ normpath "/tmp/x".toList = "/tmp/x".toList := by decide +kernel
+example : _safe_join ⟨id, fun _ => (none, none), "/w".toList⟩ "/tmp/x".toList "a/b.txt".toList
+    = .ok "/tmp/x/a/b.txt".toList := by
+  rw [safe_join_eq]
+  have h : safeJoin "/w".toList "/tmp/x".toList "a/b.txt".toList = .ok "/tmp/x/a/b.txt".toList := by decide +kernel
+  show Except.mapError excOf (safeJoin "/w".toList "/tmp/x".toList "a/b.txt".toList) = _
+  rw [h]; rfl
+example : ∃ e, _safe_join ⟨id, fun _ => (none, none), "/w".toList⟩ "/tmp/x".toList "a/../../b.txt".toList
+    = .error e := by
+  rw [safe_join_eq]
+  have h : safeJoin "/w".toList "/tmp/x".toList "a/../../b.txt".toList = .error .unsafePath := by decide +kernel
+  show ∃ e, Except.mapError excOf (safeJoin "/w".toList "/tmp/x".toList "a/../../b.txt".toList) = .error e
+  rw [h]; exact ⟨_, rfl⟩
+end src
+
 end S2T.C09
